@@ -43,7 +43,7 @@ def cexpr(e):
         return e
     if h == "enum":
         return ("var", e[1].split("::")[-1])
-    if h in ("cast",):
+    if h in ("cast", "narrow"):
         return cexpr(e[3])
     if h in ("addr", "deref"):
         return cexpr(e[1])
@@ -65,6 +65,8 @@ def cexpr(e):
         return ("un", e[1], a)
     if h == "bin":
         op = e[1]
+        if op == "f/":
+            op = "/"
         a, b = cexpr(e[2]), cexpr(e[3])
         if op in FLIP:
             op, a, b = FLIP[op], b, a
@@ -105,7 +107,7 @@ def cexpr(e):
     if h in ("assign",):
         return ("assign", cexpr(e[1]), cexpr(e[2]))
     if h == "aug":
-        return ("aug", e[1], cexpr(e[2]), cexpr(e[3])) + tuple(e[4:5])
+        return ("aug", "/" if e[1] == "f/" else e[1], cexpr(e[2]), cexpr(e[3])) + tuple(e[4:5])
     if h == "make" or h == "new":
         return (h, e[1], tuple(cexpr(a) for a in e[2]))
     if h == "lambda":
@@ -200,7 +202,7 @@ def cstmt(s):
         pre, post = [], []
         l = _hoist(cexpr(s[2]), pre, post)
         r = _hoist(cexpr(s[3]), pre, post)
-        return pre + [("aug", s[1], l, r)] + post
+        return pre + [("aug", "/" if s[1] == "f/" else s[1], l, r)] + post
     if h == "expr":
         e = cexpr(s[1])
         if e[0] == "cond":
